@@ -239,6 +239,75 @@ def _base(t):
     return t
 
 
+_SIDES = {"Integer": {"lhs": [0], "rhs": [1]}, "Real": {"lhs": [0], "rhs": [1]}, "Rational": {"lhs": [0, 1], "rhs": [2, 3]}}
+
+
+def _normalise_promoted(fb, x):
+    """Number::<K>(parts of one side of a promoted pair of kind K, in order) == that side of the pair (the placement of the
+    payloads inside NumberBinaryOperand is what C09-contagion checks on upcast_oprands itself)"""
+    if isinstance(x, Enum) and x.fields and all(isinstance(p, Tok) and p.kind == "part" for p in x.fields):
+        pair, side, _ = x.fields[0].tag
+        kind = pair.kindmode
+        nv = {n: i for i, n in fb.variants("values::Number")}
+        if x.variant == nv.get(kind) and [p.tag for p in x.fields] == [(pair, side, i) for i in _SIDES[kind][side]]:
+            return Tok("promoted", (side, pair))
+        raise Scrambled("a number is rebuilt from the promoted pair of kind %s as Number variant %s with payloads %s: that is neither "
+                        "operand of the pair" % (kind, x.variant, [p.tag[1:] for p in x.fields]))
+    return x
+
+
+class Scrambled(Exception):
+    pass
+
+
+def _maxmin_run(fb, f, outcome, kindmode):
+    args = [_num(fb, "N%d" % i) for i in range(3)]
+    toks = [a.fields[0] for a in args]
+    ev = []
+    step = [0]
+    vb = {n: i for i, n in fb.variants("values::NumberBinaryOperand")}
+
+    def numlike(x):
+        return isinstance(x, Tok) and x.kind in ("number", "promoted")
+
+    def icpt(mc, c, a, tt, g):
+        end = c.rsplit("::", 1)[-1]
+        a_ = [_normalise_promoted(fb, x) for x in a]
+        if end in ("lt", "le", "gt", "ge") and len(a_) == 2 and all(numlike(x) for x in a_):
+            k = step[0]
+            step[0] += 1
+            ev.append((end, _base(a_[0]).tag, _base(a_[1]).tag, a_[0].kind, a_[1].kind))
+            return outcome[k] if k < len(outcome) else UNKNOWN
+        if c.endswith("values::upcast_oprands"):
+            pr = a[0]
+            if isinstance(pr, list) and len(pr) == 2:
+                pr = [_normalise_promoted(fb, x) for x in pr]
+            if isinstance(pr, list) and len(pr) == 2 and all(numlike(x) for x in pr):
+                pair = Tok("pair", (pr[0], pr[1]))
+                pair.kindmode = kindmode
+                if kindmode is None:
+                    return pair
+                # the promoted pair as the enum it is, for one of its three kinds, with opaque payloads
+                n = 4 if kindmode == "Rational" else 2
+                side_of = {i: sd for sd, ix in _SIDES[kindmode].items() for i in ix}
+                e = Enum(vb[kindmode], [Tok("part", (pair, side_of[i], i)) for i in range(n)])
+                e.name = kindmode
+                e.pair = pair
+                return e
+            return UNKNOWN
+        if c.endswith("NumberBinaryOperand::lhs") or c.endswith("NumberBinaryOperand::rhs"):
+            x = a[0]
+            if isinstance(x, Enum) and getattr(x, "pair", None) is not None:
+                x = x.pair
+            if isinstance(x, Tok) and x.kind == "pair":
+                return Tok("promoted", (end, x))
+            return UNKNOWN
+        return NOT
+    mc = Machine(fb, intercept=icpt, max_visits=6)
+    res = mc.run(f, [list(args)])
+    return {"events": ev, "result": res, "toks": toks}
+
+
 def maxmin_table(fb, name):
     regs = {r["name"]: r for r in registry.read(fb)}
     if name not in regs or not regs[name]["target"]:
@@ -247,36 +316,19 @@ def maxmin_table(fb, name):
     rows = []
     for mask in range(4):
         outcome = [bool(mask & 1), bool(mask & 2)]
-        args = [_num(fb, "N%d" % i) for i in range(3)]
-        toks = [a.fields[0] for a in args]
-        ev = []
-        step = [0]
-
-        def icpt(mc, c, a, tt, g):
-            end = c.rsplit("::", 1)[-1]
-            numlike = lambda x: isinstance(x, Tok) and x.kind in ("number", "promoted")
-            if end in ("lt", "le", "gt", "ge") and len(a) == 2 and all(numlike(x) for x in a):
-                k = step[0]
-                step[0] += 1
-                ev.append((end, _base(a[0]).tag, _base(a[1]).tag, a[0].kind, a[1].kind))
-                return outcome[k] if k < len(outcome) else UNKNOWN
-            if c.endswith("values::upcast_oprands"):
-                pr = a[0]
-                if isinstance(pr, list) and len(pr) == 2 and all(numlike(x) for x in pr):
-                    return Tok("pair", (pr[0], pr[1]))
-                return UNKNOWN
-            if c.endswith("NumberBinaryOperand::lhs") or c.endswith("NumberBinaryOperand::rhs"):
-                if isinstance(a[0], Tok) and a[0].kind == "pair":
-                    return Tok("promoted", (end, a[0]))
-                return UNKNOWN
-            return NOT
-        mc = Machine(fb, intercept=icpt, max_visits=6)
         try:
-            res = mc.run(f, [list(args)])
-        except (absint.Stuck, absint.Loop) as e:
-            rows.append((outcome, {"stuck": str(e)}))
+            rows.append((outcome, None, _maxmin_run(fb, f, outcome, None)))
             continue
-        rows.append((outcome, {"events": ev, "result": res, "toks": toks}))
+        except (absint.Stuck, absint.Loop) as e:
+            first = str(e)
+        # the function looks inside the promoted pair: one run per kind of pair
+        for kind in ("Integer", "Rational", "Real"):
+            try:
+                rows.append((outcome, kind, _maxmin_run(fb, f, outcome, kind)))
+            except (absint.Stuck, absint.Loop) as e:
+                rows.append((outcome, kind, {"stuck": "%s; with the promoted pair of kind %s: %s" % (first, kind, e)}))
+            except Scrambled as e:
+                rows.append((outcome, kind, {"wrong": str(e)}))
     return f, rows
 
 
@@ -290,10 +342,14 @@ def rule_maxmin(ctx, rule_op, rule_contagion):
             ctx.undecided(rule_op, name, "%s is not registered as a builtin function" % name)
             continue
         f, rows = t
-        for outcome, d in rows:
-            key = "%s/outcomes=%s" % (name, "".join("T" if x else "F" for x in outcome))
+        for outcome, kind, d in rows:
+            key = "%s/outcomes=%s%s" % (name, "".join("T" if x else "F" for x in outcome), "/promoted-kind=" + kind if kind else "")
             if "stuck" in d:
                 ctx.undecided(rule_op, key, "cannot follow %s (%s)" % (f.name, d["stuck"]), where_of(f))
+                continue
+            if "wrong" in d:
+                decided += 1
+                ctx.report(rule_op, name + "/promoted-operand", "%s: %s" % (name, d["wrong"]), where_of(f))
                 continue
             decided += 1
             ev, res = d["events"], d["result"]
@@ -309,6 +365,7 @@ def rule_maxmin(ctx, rule_op, rule_contagion):
                 w = w if outcome[k] else cur
             nums = find_enum(res, "Number")
             got = nums[0].fields[0] if nums and nums[0].fields else None
+            got = _normalise_promoted(fb, got)
             ctx.inst(rule_op, key, {"comparisons": [list(e[:3]) for e in ev], "result": repr(got)})
             ctx.oblige(okop)
             if not okop or len(ev) != 2:
